@@ -7,6 +7,10 @@ except ImportError:
     import sre_parse, sre_constants as sre_c
 from .bvre import SymS, py_match, char_at, concat_eq, cls_pred
 
+CATS = {sre_c.CATEGORY_WORD: "word", sre_c.CATEGORY_SPACE: "space", sre_c.CATEGORY_DIGIT: "digit",
+        sre_c.CATEGORY_NOT_WORD: "not_word", sre_c.CATEGORY_NOT_SPACE: "not_space", sre_c.CATEGORY_NOT_DIGIT: "not_digit"}
+
+
 def to_atoms(pattern, flags=0):
     """regex -> (atoms, end_anchor) for the subset: literals, \\w \\s . classes with * +, capture groups, $"""
     p = sre_parse.parse(pattern, flags)
@@ -14,8 +18,20 @@ def to_atoms(pattern, flags=0):
     def cls_of(item):
         op, arg = item
         if op == sre_c.ANY: return "dot"
-        if op == sre_c.IN and len(arg) == 1 and arg[0][0] == sre_c.CATEGORY:
-            return {sre_c.CATEGORY_WORD: "word", sre_c.CATEGORY_SPACE: "ws"}[arg[0][1]]
+        if op == sre_c.NOT_LITERAL: return ("set", True, (("lit", arg),))
+        if op == sre_c.CATEGORY: return ("set", False, (("cat", CATS[arg]),))
+        if op == sre_c.IN:
+            if len(arg) == 1 and arg[0][0] == sre_c.CATEGORY and arg[0][1] in (sre_c.CATEGORY_WORD, sre_c.CATEGORY_SPACE):
+                return {sre_c.CATEGORY_WORD: "word", sre_c.CATEGORY_SPACE: "ws"}[arg[0][1]]
+            neg = False
+            items = []
+            for o, a in arg:
+                if o == sre_c.NEGATE: neg = True
+                elif o == sre_c.LITERAL: items.append(("lit", a))
+                elif o == sre_c.RANGE: items.append(("range", a[0], a[1]))
+                elif o == sre_c.CATEGORY: items.append(("cat", CATS[a]))
+                else: raise NotImplementedError((o, a))
+            return ("set", neg, tuple(items))
         raise NotImplementedError(item)
     def walk(seq):
         nonlocal end
@@ -36,6 +52,8 @@ def to_atoms(pattern, flags=0):
                 atoms.append(("open", g)); walk(arg[3]); atoms.append(("close", g))
             elif op == sre_c.AT and arg == sre_c.AT_END:
                 end = True
+            elif op in (sre_c.IN, sre_c.ANY, sre_c.NOT_LITERAL, sre_c.CATEGORY):
+                atoms.append(("one", cls_of((op, arg))))
             else:
                 raise NotImplementedError((op, arg))
         flush()
@@ -151,3 +169,35 @@ def concrete_agrees(pattern, flags, text, search, N=None):
             if (ga, gb) != ref.span(g):
                 return False, f"group {g}: encoding {(ga, gb)} vs re {ref.span(g)}"
     return True, ""
+
+
+CURRENT_SHIM = None
+
+
+def _contains(self, lit):
+    """`lit in symstr` inside the function under test: a symbolic bool, resolved by the shim's decision list."""
+    shim = CURRENT_SHIM
+    if shim is None or not isinstance(lit, str):
+        raise NotImplementedError("substring test outside a shim run")
+    base = materialise(shim.solver, self, shim.N, f"in{shim.n}")
+    shim.n += 1
+    N = base.N
+    occ = z3.Or(*[z3.And(i + len(lit) <= base.L, *[base.c[i + k] == ord(lit[k]) for k in range(len(lit))])
+                  for i in range(N - len(lit) + 1)]) if len(lit) <= N else z3.BoolVal(False)
+    want = shim.decisions.pop(0) if shim.decisions else False
+    shim.cons.append((occ, want)) if hasattr(shim, "cons") else shim.solver.add(occ if want else z3.Not(occ))
+    shim.log.append((f"{lit!r} in", want))
+    return want
+
+
+SymStr.__contains__ = _contains
+
+
+def run_real_with(fn, shim, *args):
+    """run_real + makes the shim visible to SymStr.__contains__."""
+    global CURRENT_SHIM
+    CURRENT_SHIM = shim
+    try:
+        return run_real(fn, shim, *args)
+    finally:
+        CURRENT_SHIM = None
